@@ -99,6 +99,7 @@ def run(corrupt=None):
     if ck.tier == "thorough":
         part(ck, 4, 4, 3, ck.seed, 3, corrupt)
         part(ck, 5, 3, 1, ck.seed + 1, 2)
+        part(ck, 5, 4, 2, ck.seed + 4, 2)
         part(ck, 4, 6, 1, ck.seed + 2, 1)
         part(ck, 3, 5, 2, ck.seed + 3, 9)
     else:
